@@ -152,6 +152,21 @@ def entries():
         return args, lambda a: (lambda m: (m.fit(a['X']), m.to_dict())[1])(GaussianMultivariate(distribution=a['distribution']))
     E['GaussianMultivariate.fit'] = (('dataframe', 'ndarray', 'ro-ndarray'), g_fit)
 
+    def g_fit_fallback(cont):
+        # a per-column configuration in which two of the configured distributions cannot be fitted (the Gaussian fallback runs)
+        from copulas.multivariate import GaussianMultivariate
+        from copulas.univariate import GaussianUnivariate
+        from ..stubs import PickyGaussian
+        df = B.mv_data('A', 3).copy()
+        df['a'] = df['a'] + 3000.0
+        df['c'] = df['c'] + 5000.0
+        X = df if cont == 'dataframe' else _wrap(df.to_numpy(), cont)
+        keys = list(df.columns) if cont == 'dataframe' else [0, 1, 2]
+        dist = {keys[0]: PickyGaussian, keys[1]: GaussianUnivariate, keys[2]: PickyGaussian()}
+        args = {'X': X, 'distribution': dist}
+        return args, lambda a: (lambda m: (m.fit(a['X']), [type(u).__name__ for u in m.univariates], m.to_dict())[1:])(GaussianMultivariate(distribution=a['distribution']))
+    E['GaussianMultivariate.fit(fallback)'] = (('dataframe', 'ndarray'), g_fit_fallback)
+
     def g_query(meth):
         def mk(cont):
             b = B.by_name('GaussianMultivariate2')
